@@ -273,6 +273,27 @@ def check_derivative(op, pts, site, first, stats, judge=True, tiny=False):
                              % (np.asarray(p).tolist(), k, np.round(de, 10).tolist(),
                                 np.round(rich, 10).tolist(), np.round(ds[0], 8).tolist(),
                                 np.round(ds[2], 8).tolist()))
+    # memory layout of the base point: the derivative at x wrapping a Fortran-ordered array, applied
+    # to Fortran-ordered directions, against the same derivative with C-ordered data
+    if judge and S.has_layout(dom) and not S.is_field(ran):
+        try:
+            p0 = pts[0]
+            Dc = op.derivative(S.from_flat(dom, p0))
+            Df = op.derivative(S.from_flat_F(dom, p0))
+            for k, e in enumerate(dirs):
+                a = _rc(ran, Dc(S.from_flat(dom, e)))
+                b = _rc(ran, Df(S.from_flat_F(dom, e)))
+                stats['evals'] += 2
+                if a.shape != b.shape or np.abs(a - b).max() > 1e-12 * (1 + np.abs(a).max()):
+                    first.setdefault((site, 'derivative_depends_on_memory_layout_of_its_arguments'),
+                                     'x=%s direction %d: derivative(x)(e)=%s with C-ordered x and e, %s '
+                                     'with the same x and e wrapping Fortran-ordered arrays'
+                                     % (np.asarray(p0).tolist(), k, np.round(a, 10).tolist(),
+                                        np.round(b, 10).tolist()))
+                    break
+        except Exception as ex:
+            first.setdefault((site, 'derivative_with_fortran_ordered_arguments_raises:'
+                              + type(ex).__name__), repr(ex)[:300])
     # magnitude regime: the first two base points scaled by 2^-30, steps scaled alike.  Exact tests
     # inside a derivative ("norm == 0") must not be tolerance-based ones.  Judged only where the
     # three difference quotients agree with each other to 1e-8 (at these steps the truncation
